@@ -11,7 +11,7 @@ for f in ("patch.diff", "demo.py", "notes.md"):
     shutil.copy(os.path.join(src, f), os.path.join(dst, f))
 first = open(os.path.join(src, "notes.md")).readline().strip()
 meta = {"property": ID, "breaks": first, "needs_to_manifest": "see notes.md",
-        "source": "independent sub-agent given only the property text, one-line descriptions of earlier changes to avoid, and a scratch worktree (round 3)",
+        "source": "independent sub-agent given only the property text, one-line descriptions of earlier changes to avoid, and a scratch worktree (round 5 for m10-m12; earlier rounds as dated in DESIGN.md)",
         "confirmed": {"existing_tests_unchanged": "157 passed, 1 failed (as on the unchanged tree)", "demo_fails_with_patch": True, "demo_passes_without": True,
                       "how": "tools/seed_eval.sh: scratch git worktree of /repo HEAD, git apply patch.diff, pytest, demo with DIAMETER_SRC=<patched src> and =/repo/src, then ./check with DIAMETER_SRC=<patched src>; worktree removed"},
         "detected_by": det, "detection_history": hist}
